@@ -36,6 +36,12 @@ func fnBitCount(ctx *cmdContext, args map[string]any) (output respValue, err err
 		_, bitMode = rangeArg.get("unit.bit")
 	}
 
+	if length == 0 {
+		// nothing to count in an empty string, whatever the range
+		output.data = respInt(0)
+		return
+	}
+
 	if bitMode {
 		length *= 8
 	}
